@@ -32,6 +32,7 @@
      pubcalc PRIVKEY                     -> code [pubkey]                          btokPubkeyCalc (static)
    Containers:
      pkwrap KEY PWD SALT ITER | shwrap SHARE PWD SALT ITER  -> code [epki]
+     pkwraplen KEY ITER | shwraplen SHARE ITER              -> code [announced length]   (epki == 0: sizing pass only)
      pkunwrap EPKI PWD | shunwrap EPKI PWD                  -> code0 [len0 | code [payload]]   (length probe, then the call)
      rawwrap KIND PAYLOAD PWD SALT ITER  -> epki : PBKDF2 + beltKWPWrap + bpkiEdataEnc WITHOUT the iter/length checks
                                           (KIND pk|sh selects bpkiPrivkeyEnc/bpkiShareEnc; KIND raw wraps PAYLOAD itself)
@@ -548,6 +549,18 @@ static int handle_bpki(int argc, char** argv)
 			if (v) out_free(v, len);
 		}
 		hex_free(x, n); hex_free(y, m); hex_free(z, k);
+	}
+	else if ((OP("pkwraplen") || OP("shwraplen")) && argc == 3)
+	{
+		/* the sizing pass alone: epki == 0, pwd == 0, salt == 0 (allowed by bpki.h); no PBKDF2 is run */
+		int pk = OP("pkwraplen");
+		size_t iter = (size_t)u_arg(argv[2]);
+		x = hex_arg(argv[1], &n);
+		len = 0x5A5A;
+		code = pk ? bpkiPrivkeyWrap(0, &len, x, n, 0, 0, 0, iter) : bpkiShareWrap(0, &len, x, n, 0, 0, 0, iter);
+		printf("%u", (unsigned)code);
+		if (code == ERR_OK) printf(" %zu", len);
+		hex_free(x, n);
 	}
 	else if ((OP("pkunwrap") || OP("shunwrap")) && argc == 3)
 	{
